@@ -228,6 +228,8 @@ func vRecipients(st *vStep, pre *vPre) {
 	t, i := st.t, st.t.i
 	sent := verifSentMessages(st.reply)
 	all := t.all()
+	// reached for every case, also those that produce no line at all
+	vA(st, len(sent) == len(st.reply.Messages), "every-outgoing-line-is-inspected")
 	for k, m := range sent {
 		if k >= len(st.reply.Messages) {
 			break
